@@ -188,7 +188,7 @@ func TestC16(t *testing.T) {
 		for i, p := range payloads {
 			// spare capacity as mtproto's pooled buffers have: the codecs append
 			// their prefix/padding behind the payload before writing
-			b := &bin.Buffer{Buf: append(make([]byte, 0, len(p)+16), p...)}
+			b := usedBufferWith(p)
 			before := wire.Len()
 			if err := snd.Write(&wire, b); err != nil {
 				// A writer may refuse a payload whose framed length would exceed
@@ -350,7 +350,7 @@ func sendAll(conn transport.Conn, pl sendPlan) error {
 			defer wg.Done()
 			<-start
 			for i, p := range pl.bySender[s] {
-				b := &bin.Buffer{Buf: append(make([]byte, 0, len(p)+16), p...)}
+				b := usedBufferWith(p)
 				if err := conn.Send(context.Background(), b); err != nil {
 					errs[s] = fmt.Errorf("sender %d frame %d (%d bytes): %w", s, i, len(p), err)
 					return
@@ -629,7 +629,7 @@ func c16LimitOverheadViolation() string {
 		p[0], p[len(p)-1] = 0x55, c.last
 		var wire bytes.Buffer
 		wire.Grow(c.n + 32)
-		b := &bin.Buffer{Buf: append(make([]byte, 0, len(p)+16), p...)}
+		b := usedBufferWith(p)
 		if err := c.pd.newCodec().Write(&wire, b); err != nil {
 			continue // refused by the writer: nothing sent, nothing owed
 		}
@@ -661,4 +661,15 @@ func TestC16Known(t *testing.T) {
 		return
 	}
 	t.Logf("listed finding %s no longer reproduces", sigC16LimitOverhead)
+}
+
+// usedBufferWith returns a buffer holding p whose 16 bytes of spare capacity
+// are not zero (a pooled buffer that carried a longer message before).
+func usedBufferWith(p []byte) *bin.Buffer {
+	buf := make([]byte, len(p)+16)
+	copy(buf, p)
+	for i := len(p); i < len(buf); i++ {
+		buf[i] = 0xA5
+	}
+	return &bin.Buffer{Buf: buf[:len(p)]}
 }
